@@ -24,6 +24,7 @@ first_miss = {"C05-D": "missed at first: reception was only checked by object id
               "C20-E": "missed at first: the physical-view stand-in used float operands only → integer physical values with integer factors added",
               "C01-G": "missed at first: expedited pieces were contracted for two pieces only → every composition of the size into 2..4 pieces",
               "C15-H": "missed at first: the received frame always carried a later timestamp → a frame with the previous frame's timestamp added",
+              "C04-G": "undecided at first (`int.bit_length()` of a symbolic integer was outside the engine) → modelled as a chain of comparisons against the powers of two; the correct unsigned half of the same change still verifies, the signed half is refuted with the most negative value as replayed input",
               "C08-G": "missed at first: build_variable was contracted for the integer types only → BuildVariableDataType: every data type code CiA 301 defines in 0x01..0x1B keeps its type (TIME_OF_DAY / TIME_DIFFERENCE included) and numeric defaults are read as numbers",
               "C14-G": "missed at first: same gap as C08-G (the import half of the round trip) → BuildVariableDataType",
               "C19-G": "undecided at first (the stalled wait loop spun until the unrolling budget under the frozen clock) → `clock_patience`: after 200 clock reads without completion every deadline has expired, the library's own time-out ends the call and the clause fails; the native replay lets the environment repeat its last answer while the real deadline runs out",
